@@ -235,6 +235,28 @@ func c05Check(ctx *vfCtx, c c05Case) {
 	if verr != nil {
 		ctx.Fail("C05/lib-signature-lost-by-redaction"+kc, "a signature made with PDU.Sign() no longer verifies after Redact(): %v; redacted=%q", verr, signed.JSON())
 	}
+	// the same for an event that came in through the UNTRUSTED parser (an invite that the invited
+	// server counter-signs): whatever the parser kept of it, a signature added afterwards is there,
+	// and valid, after Redact()
+	var usigned PDU
+	if vfCatch(ctx, "C05/lib-sign/untrusted", func() {
+		fresh, e := impl.NewEventFromUntrustedJSON(append([]byte(nil), c.Event...))
+		if e == nil && fresh != nil {
+			usigned = fresh.Sign("lib.example", "ed25519:lib", lpriv)
+		}
+	}) || usigned == nil {
+		return
+	}
+	ctx.Class("lib-signed/after-untrusted-parse")
+	if vfCatch(ctx, "C05/lib-sign/untrusted", func() { usigned.Redact() }) {
+		return
+	}
+	if vfCatch(ctx, "C05/lib-sign/untrusted", func() { verr = VerifyJSON("lib.example", "ed25519:lib", lpub, usigned.JSON()) }) {
+		return
+	}
+	if verr != nil {
+		ctx.Fail("C05/lib-signature-lost-by-redaction"+kc+"/after-untrusted-parse", "a signature made with PDU.Sign() on an event from the untrusted parser no longer verifies after Redact(): %v; redacted=%q", verr, usigned.JSON())
+	}
 }
 
 // c05DiffTag names the first differing key (stable signature component).
